@@ -7,6 +7,7 @@ from .rules import store_rules as T
 from .rules import gap_rules as GR
 from .rules import fringe_rules as FR
 from .rules import width_rules as WR
+from .rules import viz_rules as VR
 
 COMMON_ASSUME = [
     'rustc MIR construction, name resolution and the fact extractor (engine/factsdrv) are trusted',
@@ -47,6 +48,7 @@ RULE_FUNCS = [
     (D.r_flags, ['R06.4']),
     (D.r_pooled_layers, ['R15.1', 'R15.2', 'R15.3']),
     (GR.r_gap, ['R17']),
+    (VR.r_viz, ['R20.a', 'R20.b', 'R20.c', 'R20.d']),
     (WR.r_width_combinators, ['R13.c']),
     (FR.r_simple_fringe, ['R11.a']),
     (FR.r_maxub, ['R11.b']),
@@ -120,4 +122,5 @@ PROPS = {
                 technique='abstract interpretation (sign/order-cell domain) of the MIR of Solver::gap', level_text='Proof by abstract interpretation: every obligation of the property statement is discharged in every input cell (the cells cover all pairs lb <= ub); no clause of the statement is left undecided.'),
     'C18': dict(fn=mk(['R18.', 'R10.1', 'R10.3', 'R10.4', 'R10.5']), explanation='one DashMap::entry call per read-modify-write (no second accessor), update = Ord::max(new, old), Threshold field order and derives, per-layer indexing, clear/clear_layer/initialize, dominance tables'),
     'C19': dict(fn=mk(['R19.', 'R02.1', 'R14.1', 'R11.a', 'R11.b', 'R11.e'], lambda r: r['rule'].startswith(('R19', 'R11')) or 'improve-only' in r['instance'] or '/strict' in r['instance']), explanation='best_ub := popped ub, child bound = min(parent, child), incumbent improve-only, Complete sets best_ub := best_lb'),
+    'C20': dict(fn=mk(['R20.', 'R15.2'], lambda r: r['rule'].startswith('R20') or 'terminal-layer' in r['instance']), explanation='panic-site inventory of as_graphviz (call graph) with its discharge (layers non-empty after every successful compilation), one emission per visible node (skip only when hidden by configuration), edge label provenance over the inbound list, terminal drawn only when the terminal container is non-empty'),
 }
